@@ -159,6 +159,8 @@ def run_failhist(c):
     else:
         th = lambda: NPC.westfall_young(e, good, in_place=c["in_place"], reps=c["reps"], seed=bad_seed)
     out["failed"] = rejected(th)
+    out["window"] = [a for (_, a) in t0.log[log_before:]]
+    out["fork_window"] = [a for (_, a) in t0.forks[-1].log] if t0.forks else []
     out["after_fail"] = {"group": [int(v) for v in e.group], "group_before": g_before, "others_same": snap(e) == init, "same_randomizer": e.randomizer is R,
                          "same_prng": e.randomizer.prng is t0, "draws_by_failed_call": len(t0.log) - log_before, "n_forks": len(t0.forks)}
     # follow-up: (optionally) re-stratify in place, then valid calls
@@ -617,6 +619,17 @@ def to_coq(c, o):
         fn = f"({'MeanDiffF' if c['fn'] == 'mean_diff' else 'AnovaF'} {cnat(c['idx'])})"
         impl = cres(("ok", Fraction(r[1])) if r[0] == "ok" and math.isfinite(r[1]) else (r if r[0] == "exc" else ("exc", "Other")), cq)
         return f"TestFnCase {fn} {clist(c['g'])} {clist(c['resp'], lambda r: qlist([Fraction(v) for v in r]))} {impl}"
+    if f == "failhist":
+        # the state an ABORTED call leaves behind, against Model/ExperimentAbort.v: j = at - 1 randomizations were completed
+        # when the statistic raised at its evaluation number [at]; the answers are those the call consumed
+        if c["fail"] not in ("sim_npc", "wy") or o["failed"][0] != "exc" or o["failed"][1] not in ("ValueError", "Base:Abort"):
+            return None
+        a = o["after_fail"]
+        ans = o["window"] if c["in_place"] else o["fork_window"]
+        resp = clist(c["resp"], lambda r: qlist([Fraction(v) for v in r]))
+        st = f"(Some {clist(c['s1'])})" if c["strat"] else "None"
+        e = f"{{| group := {clist(a['group_before'])}; response := {resp}; strata := {st}; kind := {'Strat' if c['strat'] else 'Unstrat'}; gen := {clist(ans, cnat)} |}}"
+        return f"AbortCase {e} {cbool(c['in_place'])} {cnat(c['at'] - 1)} {clist(a['group'])}"
     if f == "restrat":
         # the model's step from the state reached after the change of strata: assignment g1, the NEW strata, the answers consumed
         if any(r[0] != "ok" for r in o["r"][:2]):
